@@ -58,7 +58,7 @@ func Run(r *core.Run) {
 	if r.Tier == "thorough" {
 		devs = 1
 	}
-	addMode(scen.EcResharing(2, 1, []int{0, 1}, 2, 1, r.Seed, true), "dev", devs, 0, scen.ResultOracle)
+	addMode(scen.EcResharing(2, 1, []int{0, 1}, 2, 1, r.Seed, false), "dev", devs, 0, scen.ResultOracle)
 	addMode(scen.EcKeygen("small", 2, 1, r.Seed), "dev", devs, 0, scen.ResultOracle)
 	if r.Tier == "thorough" {
 		add(scen.EdKeygen("large", 3, 1, r.Seed), 2, scen.ResultOracle)
